@@ -59,7 +59,7 @@ def match(source: str, pos: int) -> MatchResult:
         elif token_type == TokenType.PropertyValue:
             pending = pending_property[0]
             if pending and pending[0] < pos < end:
-                result[0] = MatchResult('property', pending[0], delimiter + 1, start, end)
+                result[0] = MatchResult('property', pending[0], delimiter + 1 if delimiter != -1 else end, start, end)
                 return False
             release_pending()
 
@@ -199,7 +199,7 @@ def balanced_inward(source: str, pos: int) -> list:
                 p = pending_property[0]
                 if p.start <= pos <= end:
                     # Direct hit into property, no need to look further
-                    push(result, (p.start, delimiter + 1))
+                    push(result, (p.start, delimiter + 1 if delimiter != -1 else end))
                     push(result, (start, end))
                     release_pending()
                     return False
@@ -231,7 +231,7 @@ def inner_range(source: str, start: int, end: int):
     while end and end > start and is_space(source[end - 1]):
         end -= 1
 
-    return (start, end) if start != end else None
+    return (start, end) if start < end else None
 
 def alloc_range(pool: list, start: int, end: int, delimiter: int):
     if pool:
